@@ -72,12 +72,15 @@ class Env:
                  'fork', 'delivered', 'must_start', 'blocktok', 'tok', 'calls', 'owed',
                  'seen_mp', 'seen_bp', 'last_m', 'last_b', 'error', 'flags', 'reported',
                  'unmatched_reports', 'in_start', 'epoch', 'mp_epoch', 'last_m_epoch', 'last_call',
-                 'downs', 'async_mode', 'susp', 'suspend_bits', 'running_start')
+                 'downs', 'async_mode', 'susp', 'suspend_bits', 'running_start', 'mp_call_at',
+                 'last_b_call')
 
     def __init__(self, warm=True):
         self.n = Notifications()
         self.tok = 0
         self.calls = 0
+        self.mp_call_at = {}    # height -> call index of the latest on_mempool at that height
+        self.last_b_call = 0    # call index of the latest on_block
         self.owed = {}          # token -> call index of its latest hand-over, not yet covered
         self.seen_mp = set()
         self.seen_bp = set()
@@ -133,6 +136,8 @@ class Env:
             setattr(e, a, getattr(self, a))
         e.async_mode, e.susp, e.suspend_bits, e.running_start = False, {}, (), False
         e.pend = set(self.pend)
+        e.mp_call_at = dict(self.mp_call_at)
+        e.last_b_call = self.last_b_call
         e.blocktok = dict(self.blocktok)
         e.owed = dict(self.owed)
         e.seen_mp = set(self.seen_mp)
@@ -204,6 +209,10 @@ class Env:
     def call(self, method, tokens, height):
         self.calls += 1
         self.last_call = method
+        if method == 'on_mempool':
+            self.mp_call_at[height] = self.calls
+        else:
+            self.last_b_call = self.calls
         tokens = set(tokens)
         if self.started:
             for t in tokens:
@@ -244,7 +253,12 @@ class Env:
         '''Oracle (2).'''
         if (self.error is None and self.started and self.last_m == self.last_b == self.D
                 and self.last_m_epoch == self.epoch and self.owed):
-            stale_key = any(h > self.n._highest_block for h in self.n._touched_mp)
+            # the open finding's history, not just its shape: every refresh set waiting above
+            # the reported height was handed over AFTER the latest (lower) block report - one that
+            # was already waiting when that report came must have been carried down by it
+            stale = [h for h in self.n._touched_mp if h > self.n._highest_block]
+            stale_key = bool(stale) and all(self.mp_call_at.get(h, 0) > self.last_b_call
+                                            for h in stale)
             if stale_key and set(self.owed) <= self.pending_tokens():
                 self.error = (f'both sources have reported at the current height {self.D} but '
                               f'token(s) {sorted(self.owed)} are still pending (not dropped): a '
@@ -302,8 +316,10 @@ class Env:
             # the daemon's best chain loses its top k blocks (invalidateblock, or a switch to a
             # branch with more work and fewer blocks): the index is now k blocks ahead on a stale
             # tip and cannot notice until the daemon is higher again or the operator forces a reorg
-            if self.downs < MAX_DOWNS and self.D == self.S == self.d and self.bp == 'idle' \
-                    and self.started:
+            # (also at the end of a batch whose last block was flushed but not yet reported: the
+            # operator's invalidateblock + reorg RPC need not wait for the block report)
+            if self.downs < MAX_DOWNS and self.D == self.S == self.d and self.started and \
+                    (self.bp == 'idle' or (self.bp == 'work' and self.S == self.P)):
                 for k in (1, 2):
                     if self.D - k >= HMIN:
                         out.append(('down', k))
@@ -526,6 +542,56 @@ def run_dfs(ctx, warm, depth):
         ctx.exhaustive = True
 
 
+# Regions the plain DFS reaches only with most of its depth spent: the search is exhaustive again
+# from the state at the end of each prefix (sharded by the next two moves).
+REGIONS = [
+    # a refresh handed over two above the last block report, batch complete, nothing reported yet
+    [('up', 2), ('poll',), ('advance', 1), ('advance', 1), ('arm',), ('deliver', 1)],
+    # a refresh at a flushed, unreported height; then the daemon's chain loses that block
+    [('up', 1), ('poll',), ('advance', 1), ('arm',), ('deliver', 1), ('down', 1)],
+    # a refresh in flight (armed, not handed over) when the index is stepped back
+    [('up', 1), ('poll',), ('advance', 1), ('arm',), ('force', 1), ('backup',)],
+    # two block reports at one height before the refresh, then a fork
+    [('up', 1), ('poll',), ('advance', 1), ('poll',), ('report',), ('poll',), ('report',),
+     ('fork', 1)],
+]
+
+
+def run_dfs_regions(ctx, depth):
+    stats = {'paths': 0, 'nontrivial': 0, 'transitions': 0, 'violating_paths': 0, 'flags': {},
+             'samples': [], 'warm': True, 'cut': False}
+    n = 0
+    for prefix in REGIONS:
+        env, applied = run_trace(prefix, True, lenient=False)
+        if env.error:
+            msg, sig = env.error
+            ctx.violation('c20.trace', {'warm': True, 'moves': applied}, f'{msg}; trace={applied}',
+                          sig)
+            continue
+        for m1 in env.moves():
+            e1 = env.clone()
+            e1.apply(m1)
+            for m2 in (e1.moves() if not e1.error else [None]):
+                n += 1
+                if n % ctx.nshards != ctx.shard:
+                    continue
+                if m2 is None:
+                    dfs(ctx, e1, 0, list(prefix) + [m1], stats)
+                    continue
+                e2 = e1.clone()
+                e2.apply(m2)
+                dfs(ctx, e2, depth - 2, list(prefix) + [m1, m2], stats)
+    ctx.evaluations += stats['paths'] + stats['violating_paths']
+    for i in range(stats['nontrivial']):
+        ctx.nontrivial.add(f'region/{ctx.shard}/{i}')
+    ctx.classes['dfs.regions.paths'] += stats['paths']
+    ctx.classes['dfs.regions.nontrivial_paths'] += stats['nontrivial']
+    ctx.extra['dfs_regions_depth_max'] = depth
+    ctx.extra['transitions'] = ctx.extra.get('transitions', 0) + stats['transitions']
+    if stats['cut']:
+        ctx.exhaustive = False
+
+
 # ---- Hypothesis deep walks ----------------------------------------------------------------------
 
 def walk_body(ctx):
@@ -576,6 +642,7 @@ def run(ctx):
             st.tuples(st.booleans(), st.lists(st.integers(0, 11), min_size=5, max_size=60)
                       ).map(list),
             walk_body(ctx), ctx.pick(300, 20000), frac=0.2)
+    run_dfs_regions(ctx, ctx.pick(7, 9))
     run_dfs(ctx, True, ctx.pick(11, 13))
     run_dfs(ctx, False, ctx.pick(12, 14))
     validate_real_traces(ctx, ctx.pick(12, 400))
